@@ -72,7 +72,7 @@ func c13() []*Ob {
 			Desc: "one order: sealing sorts a field's tokens with bytes.Compare and Narrow compares with bytes.Compare / bytes.Equal; literalSearch.Narrow reads GetToken(first) only under first <= last",
 			Check: func(c *Ctx) {
 				if fn := c.Fn("(*frac.DiskBlocksProducer).getTIDsSortedByToken"); fn != nil {
-					if len(CallsInAll(fn, Callee("bytes.Compare"))) > 0 {
+					if Current.HasCall(fn, Callee("bytes.Compare")) {
 						c.Site(fn.Pos(), "sealed dictionary is sorted with bytes.Compare")
 					} else {
 						c.Violation("pair:comparator:seal", fn.Pos(), "the sealed dictionary is no longer sorted with bytes.Compare while narrowing binary-searches it bytewise")
@@ -83,7 +83,7 @@ func c13() []*Ob {
 					if fn == nil {
 						continue
 					}
-					if len(CallsInAll(fn, Callee("bytes.Compare"))) > 0 {
+					if Current.HasCall(fn, Callee("bytes.Compare")) {
 						c.Site(fn.Pos(), "%s compares bytewise", name)
 					} else {
 						c.Violation("pair:comparator:"+name, fn.Pos(), "%s does not compare with bytes.Compare", name)
